@@ -121,7 +121,7 @@ func (l *scionLive) configure(cfg exchCfg, f *recFilter) {
 func (l *scionLive) getPrev() client.VerifC03Prev  { return client.VerifC03PrevSCION(l.c) }
 func (l *scionLive) setPrev(p client.VerifC03Prev) { client.VerifC03SetPrevSCION(l.c, p) }
 func (l *scionLive) measure(ctx context.Context) (time.Time, time.Duration, error) {
-	la := udp.UDPAddr{IA: localIA, Host: &net.UDPAddr{IP: scionLocalIP(), Zone: liveZone}}
+	la := udp.UDPAddr{IA: localIA, Host: &net.UDPAddr{IP: scionLocalIP(), Zone: liveZone, Port: livePort}}
 	ra := scionRemote()
 	var path snet.Path = spath.Path{Src: localIA, Dst: remoteIA, DataplanePath: spath.Empty{},
 		NextHop: net.UDPAddrFromAddrPort(thePeer.addr)}
